@@ -179,17 +179,18 @@ def temperature_mismatch(cx, kinds):
 
 
 @harness("C09", "spectral_density_addition",
-         quick=[dict(units=None), dict(units="1/cm")],
-         thorough=[dict(units=u) for u in (None, "1/cm", "eV", "THz")],
+         quick=[dict(units=None), dict(units="1/cm"), dict(units=None, ub_at=1), dict(units="1/cm", ub_at=0)],
+         thorough=[dict(units=u, ub_at=k) for u in (None, "1/cm", "eV", "THz") for k in (0, 1, 2)],
          functions=[F_SD + ":SpectralDensity.__init__", F_SD + ":SpectralDensity.__add__",
                     F_SD + ":SpectralDensity.__iadd__", F_SD + ":SpectralDensity.add_to_data",
                     F_SD + ":SpectralDensity.add_to_data2", F_SD + ":SpectralDensity._make_overdamped_brownian",
                     F_SD + ":SpectralDensity._make_underdamped_brownian"],
-         bound="three analytic spectral-density components (two overdamped, one underdamped Brownian) with symbolic "
+         bound="three analytic spectral-density components (two overdamped, one underdamped Brownian at any of the three "
+               "positions) with symbolic "
                "parameters on a 6-point dyadic frequency grid; components constructed in internal units, the "
                "additions (a+b)+c, a+(b+c), a+=b performed inside the given energy-units context",
          out="Underdamped / B777 / CP29 types")
-def spectral_density_addition(cx, units):
+def spectral_density_addition(cx, units, ub_at=2):
     import contextlib
     import quantarhei as qr
     with cx.concrete():
@@ -198,7 +199,7 @@ def spectral_density_addition(cx, units):
     comps = []
     for i in range(3):
         lam = cx.real("lam%d" % i, 0.001, 0.01)
-        if i < 2:
+        if i != ub_at:
             tau = cx.real("tau%d" % i, 50.0, 150.0)
             cx.assume(tau > 0, "correlation times, dampings, frequencies > 0")
             prm = dict(ftype="OverdampedBrownian", reorg=lam, cortime=tau, T=T)
@@ -226,7 +227,12 @@ def spectral_density_addition(cx, units):
         cx.prove_eq(name + "/data", f.data, total, tol=1e-7)
         cx.prove_eq(name + "/lamb", f.lamb, ltot, tol=1e-9)
         cx.prove(name + "/params", [p["ftype"] for p in f.params] ==
-                 ["OverdampedBrownian", "OverdampedBrownian", "UnderdampedBrownian"])
+                 [("UnderdampedBrownian" if i == ub_at else "OverdampedBrownian") for i in range(3)])
+    # every sum is reproduced by the component list it carries (any position of the underdamped component)
+    with qr.energy_units("int"):
+        rebuilt = qr.SpectralDensity(wa, left.params)
+    cx.prove_eq("rebuilt/data", rebuilt.data, total, tol=1e-7)
+    cx.prove_eq("rebuilt/lamb", rebuilt.lamb, ltot, tol=1e-9)
     for i, c in enumerate(comps):
         cx.prove_eq("operand_untouched[%d]" % i, c.data, datas[i])
 
